@@ -347,10 +347,11 @@ func (c *ClientConn) maybePrepareAndExecute(request Request, raw *frame.RawFrame
 					zap.String("host", c.conn.RemoteAddr().String()),
 					zap.String("id", id),
 					zap.Error(err))
-				return false
-			} else {
-				return true
+				// This connection can't be used to re-prepare so try the request on the next host instead of returning
+				// the unprepared error to the client
+				request.Execute(true)
 			}
+			return true
 		} else {
 			c.logger.Warn("received unprepared error response, but existing prepared ID not in the cache",
 				zap.String("id", id))
